@@ -667,7 +667,13 @@ def stroke_doc(rng, hairpins=False):
         k = r.random()
         if k < 0.3:
             pts = [(g.num(10, 90, 0), g.num(10, 90, 0)) for _ in range(r.randint(2, 5))]
-            n = Node("polyline" if r.random() < 0.6 else "polygon", {"points": " ".join(f"{fnum(x)},{fnum(y)}" for x, y in pts)})
+            tag = "polyline" if r.random() < 0.6 else "polygon"
+            if tag == "polygon" and len(pts) < 3 and not hairpins:
+                # a two-point polygon retraces its own edge: known engine class, planted only with `hairpins`
+                pts.append((g.num(10, 90, 0), g.num(10, 90, 0)))
+            if tag == "polygon" and len(pts) < 3:
+                g.f["retraced_edge"] += 1
+            n = Node(tag, {"points": " ".join(f"{fnum(x)},{fnum(y)}" for x, y in pts)})
         elif k < 0.5:
             n = g.shape(kinds=("rect", "rrect", "circle", "ellipse", "line"))
             if not hairpins:
@@ -1170,3 +1176,44 @@ def expand_clipped_uses_of_transformed_targets(root):
 
     rec(r)
     return r if hit else None
+
+
+def from_xml(text):
+    """Parse an XML text produced by to_xml back into a Node tree (comments / PIs kept)."""
+    import xml.etree.ElementTree as ET
+
+    parser = ET.XMLParser(target=ET.TreeBuilder(insert_comments=True, insert_pis=True))
+    root = ET.fromstring(text, parser=parser)
+    nsmap = {SVGNS: "", XLINKNS: "xlink"}
+    decl = dict(__import__("re").findall(r'xmlns:(\w+)="([^"]+)"', text))
+    for pfx, uri in decl.items():
+        nsmap.setdefault(uri, pfx)
+
+    def q(name):
+        if isinstance(name, str) and name.startswith("{"):
+            uri, local = name[1:].split("}", 1)
+            p = nsmap.get(uri)
+            if p is None:
+                p = "ns%d" % len(nsmap)
+                nsmap[uri] = p
+            return local if p == "" else f"{p}:{local}"
+        return name
+
+    def conv(el):
+        if el.tag is ET.Comment:
+            return Node("", text=el.text or "", kind="comment")
+        if el.tag is ET.ProcessingInstruction:
+            t = (el.text or "").split(" ", 1)
+            return Node(t[0], text=t[1] if len(t) > 1 else "", kind="pi")
+        n = Node(q(el.tag), {q(k): v for k, v in el.attrib.items()}, [], el.text if (el.text or "").strip() else None)
+        for c in el:
+            n.children.append(conv(c))
+        return n
+
+    r = conv(root)
+    attrs = {"xmlns": SVGNS}
+    for uri, p in nsmap.items():
+        if p:
+            attrs["xmlns:" + p] = uri
+    r.attrs = {**attrs, **r.attrs}
+    return r
